@@ -103,6 +103,7 @@ type GenOpts struct {
 	// NoVariable / OnlyVariable restrict the bucket kinds
 	NoVariable, OnlyVariable bool
 	Shutdown bool // end with a graceful shutdown
+	Rewrite  bool // the run ends with two more acknowledged requests that overwrite one fixed slot with new values (no checkpoint between)
 	Destroy  bool // a bucket is destroyed after an acknowledged, not yet checkpointed write to it (C03)
 	Pending  bool // background mode: the last one or two requests are still queued when Shutdown() is called
 	Ckpt     bool // sprinkle checkpoints (and rotations)
@@ -236,6 +237,34 @@ func Gen(r *rng.Rand, o GenOpts) History {
 		}
 		h.Steps = append(h.Steps, st)
 		sinceCkpt++
+	}
+	if o.Rewrite {
+		// two acknowledged, un-checkpointed transaction groups write the SAME fixed slot with different values:
+		// whatever a crash or a power failure leaves of their primary writes, recovery must yield the later one
+		for i := len(h.Steps) - 1; i >= 0; i-- {
+			st := &h.Steps[i]
+			if st.Kind != "write" || h.Buckets[st.Batches[0].Bucket].Variable {
+				continue
+			}
+			bt := st.Batches[0]
+			b := &h.Buckets[bt.Bucket]
+			for n := 0; n < 2; n++ {
+				v := make([]byte, b.ValLen())
+				off := 0
+				for _, c := range b.Cols {
+					sz := colSize(c.Type)
+					v[off] = byte(serial)
+					v[off+1] = byte(serial >> 8)
+					if c.Type == "float32" || c.Type == "float64" {
+						v[off+sz-1] = 0x3f
+					}
+					off += sz
+				}
+				serial++
+				h.Steps = append(h.Steps, Step{Kind: "write", Batches: []Batch{{Bucket: bt.Bucket, Rows: []Row{{Epoch: bt.Rows[0].Epoch, Vals: v}}}}})
+			}
+			break
+		}
 	}
 	if o.Destroy {
 		// after the last write to some bucket that no checkpoint follows: destroy it, then (usually) go on
